@@ -1,7 +1,9 @@
 (* C08, first clause -- "SIR_pair_based with a pure initial condition equals the exact master-equation expectation of
    S, I, R on every tree (also with edge and node weights)" -- beyond the single edge of Props/C08.v.
    Statements only; proofs in Proofs/C08tG.v (graph-independent algebra), C08tS.v (joint states, initial conditions),
-   C08tT.v (tangency, every graph), C08tP3.v / C08tP4.v (trees with 3 and 4 nodes), C08tE.v (single edge), C08tC.v.
+   C08tT.v (tangency, every graph), C08tR.v (closure residual = sum of minors), C08tA.v (cut covers), C08tO.v (unclosed
+   moment equations, every graph), C08tF.v (tree_okb, assembled statement), C08tP3.v / C08tP4.v (trees with 3 and 4
+   nodes, by evaluation), C08tE.v (single edge), C08tC.v.
 
    SETTING (Model/Master.v).  p : state -> Q is a (signed) measure on the 3^n joint states; the exact process is the
    LINEAR system dp/dt = master_rhs p, written for any graph, any direction-dependent transmission rates
@@ -21,13 +23,18 @@
          same slice [C08t_tangent_eq]; hence it vanishes on M_{j,U} [C08t_tangent];
      (3) on M (and p >= 0) the pair-based right-hand side at the marginals of p equals the marginals of master_rhs p:
          (3a) the marginals of master_rhs p obey the UNCLOSED moment system open_rhs p (true triples instead of closure
-              products) -- for every p; proved per graph by evaluation + ring: edge, path-3, path-4, 3-star;
+              products) -- for every p, EVERY loop-free graph [C08t_open_general: summation by parts over the joint
+              states]; proved a second time by evaluation + ring on the edge, path-3, path-4, 3-star;
          (3b) where the closure holds at p, _dSIR_pair_based_ at the marginals equals open_rhs p [C08t_closed_eq_open,
               every graph];
          (3c) the closure follows from M: closure residual = a sum of minors [C08t_residual_eq, every n, every cut]
               and p >= 0 handles <S_j> = 0, where the code multiplies by 0 [C08t_closure_of_product, C08t_closure_on_M];
               (3b) + (3c) for every graph whose paths are separated by listed cuts: C08t_closed_eq_open_on_M.
-   C08t_path3_pure_ic_partial, C08t_path4_..., C08t_star3_... assemble (1) (2) (3) for the trees with 3 and 4 nodes.
+   C08t_tree_pure_ic_partial assembles (1) (2) (3) for EVERY graph accepted by the executable check tree_okb (index map
+   as the callers build it, no self-loop, and for every vertex j the branches of G - j, computed by a bounded search, are
+   cuts separating every two neighbours of j): every tree is such a graph, a graph with a cycle is not.
+   C08t_path3_pure_ic_partial, C08t_path4_..., C08t_star3_... are the same for the trees with 3 and 4 nodes with the
+   cuts written out (proved independently, (3a) and (3c) by evaluation).
 
    `_partial`, what is missing for the clause as stated:
      * the lift from these identities to the returned CURVES: along the solution p(t) of the (linear) master equation
@@ -35,12 +42,10 @@
        p(t) solve the pair-based system from the same initial vector, and SIR_pair_based returns that solution up to
        solver tolerance (Picard-Lindeloef).  Cited, as everywhere in this development; harness/c08t.py integrates both
        sides and checks the conclusion and every intermediate identity numerically;
-     * trees with 5 or more nodes: (1), (2), (3b), (3c) are proved for all of them; (3a), the unclosed moment equations
-       "marginals (master_rhs p) = open_rhs p" (a linear identity in p with no hypothesis), is proved only graph by
-       graph, by evaluation (edge, path-3, path-4, 3-star); its general proof (summation by parts over the joint
-       states) is not formalised.  harness/c08t.py evaluates it exactly, with the extracted definitions, on random trees
-       with up to 5 nodes, and harness/c08.py compares the curves on all trees <= 5/6 nodes (validation). *)
-From EoNV Require Import Prelude Graph Vec VecP Rhs2D Rhs2DP Rhs2 Rhs2GenP Master C08tG C08tS C08tT C08tR C08tA C08tE C08tP3 C08tP4 C08tC.
+     * "tree_okb accepts every tree" is not proved as a statement about all trees (it is a terminating computation:
+       C08t_nonvacuous_tree_check evaluates it on trees with 3 .. 6 nodes and on two graphs with a cycle, and
+       harness/c08t.py evaluates the extracted check on every tree up to the size bound of the run). *)
+From EoNV Require Import Prelude Graph Vec VecP Rhs2D Rhs2DP Rhs2 Rhs2GenP Master C08tG C08tS C08tT C08tR C08tA C08tO C08tF C08tE C08tP3 C08tP4 C08tC.
 
 (* ---------------- the general master equation is the one the single-edge theorem used ---------------- *)
 Theorem C08t_master_vec_single_edge : forall t01 t10 g0 g1 pSS pSI pSR pIS pII pIR pRS pRI pRR,
@@ -126,6 +131,29 @@ Theorem C08t_path3_tangent_eq_by_evaluation : forall tr rc p s1 s2,
   dminor (nodes_upto 3) (only 0) p (master_rhs path3 (nodes_upto 3) idx_of tr rc p) s1 s2
   == dminor_expand path3 (nodes_upto 3) idx_of tr rc (only 0) p s1 s2.
 Proof. exact p3_tangent_eq. Qed.
+
+(* (3a) for every loop-free graph, every p: no hypothesis on p *)
+Theorem C08t_open_general : forall G nodelist idx tr rc, pb_wfb G nodelist idx = true ->
+  forall p, (forall i, (i < nN nodelist)%nat -> is_edge G nodelist i i = false) ->
+  veq (open_rhs G nodelist idx tr rc p) (marginals G nodelist (master_rhs G nodelist idx tr rc p)).
+Proof. exact open_general. Qed.
+
+(* ---------------- (1) + (2) + (3) for every graph accepted by tree_okb (every tree) ---------------- *)
+Theorem C08t_tree_exact_on_M : forall G nodelist idx tr rc, tree_okb G nodelist idx = true ->
+  forall p t, nonneg nodelist p -> inMs nodelist (branch_cuts G nodelist) p ->
+  veq (g_dSIR_pair_based (marginals G nodelist p) t G nodelist idx tr rc)
+      (marginals G nodelist (master_rhs G nodelist idx tr rc p)).
+Proof. exact tree_exact_on_M. Qed.
+Theorem C08t_tree_pure_ic_partial : forall G nodelist idx tr rc, tree_okb G nodelist idx = true ->
+  forall s0, length s0 = nN nodelist ->
+  let cuts := branch_cuts G nodelist in
+  let master := master_rhs G nodelist idx tr rc in
+  (nonneg nodelist (delta s0) /\ inMs nodelist cuts (delta s0)) /\
+  (forall p, inMs nodelist cuts p -> forall c, In c cuts -> forall s1 s2,
+     In s1 (slice nodelist (fst c)) -> In s2 (slice nodelist (fst c)) -> dminor nodelist (snd c) p (master p) s1 s2 == 0) /\
+  (forall p t, nonneg nodelist p -> inMs nodelist cuts p ->
+     veq (g_dSIR_pair_based (marginals G nodelist p) t G nodelist idx tr rc) (marginals G nodelist (master p))).
+Proof. exact tree_pure_ic. Qed.
 
 (* ---------------- (1) + (2) + (3) on the trees with 3 and 4 nodes ---------------- *)
 (* path 0 - 1 - 2; the only vertex with two neighbours is 1, cut {0} | {2} *)
@@ -214,6 +242,17 @@ Example C08t_nonvacuous_cover :
   coverb path4 (nodes_upto 4) [(1, only 0); (2, upto 1)]%nat = true.
 Proof. vm_compute. repeat split; reflexivity. Qed.
 
+(* tree_okb accepts trees (3 .. 6 nodes, one with a shuffled adjacency) and rejects graphs with a cycle *)
+Definition ex_tree6 : graph := graph_of [(3, [1; 5]); (1, [3; 2; 0]); (2, [1]); (0, [1]); (5, [3; 4]); (4, [5])]%N.
+Definition ex_tri : graph := graph_of [(0, [1; 2]); (1, [0; 2]); (2, [0; 1])]%N.
+Definition ex_cyc4 : graph := graph_of [(0, [1; 3]); (1, [0; 2]); (2, [1; 3]); (3, [2; 0])]%N.
+Example C08t_nonvacuous_tree_check :
+  tree_okb path3 (nodes_upto 3) idx_of = true /\ tree_okb path4 (nodes_upto 4) idx_of = true /\
+  tree_okb star3 (nodes_upto 4) idx_of = true /\ tree_okb ex_tree5 (nodes_upto 5) idx_of = true /\
+  tree_okb ex_tree6 (nodes_upto 6) idx_of = true /\
+  tree_okb ex_tri (nodes_upto 3) idx_of = false /\ tree_okb ex_cyc4 (nodes_upto 4) idx_of = false.
+Proof. vm_compute. repeat split; reflexivity. Qed.
+
 Print Assumptions C08t_master_vec_single_edge.
 Print Assumptions C08t_marginals_single_edge.
 Print Assumptions C08t_single_edge_exact.
@@ -227,6 +266,9 @@ Print Assumptions C08t_closure_of_product.
 Print Assumptions C08t_residual_eq.
 Print Assumptions C08t_closure_on_M.
 Print Assumptions C08t_closed_eq_open_on_M.
+Print Assumptions C08t_open_general.
+Print Assumptions C08t_tree_exact_on_M.
+Print Assumptions C08t_tree_pure_ic_partial.
 Print Assumptions C08t_path3_open.
 Print Assumptions C08t_path4_open.
 Print Assumptions C08t_star3_open.
@@ -239,3 +281,4 @@ Print Assumptions C08t_nonvacuous_pure.
 Print Assumptions C08t_M_is_needed.
 Print Assumptions C08t_nonvacuous_product.
 Print Assumptions C08t_nonvacuous_cover.
+Print Assumptions C08t_nonvacuous_tree_check.
